@@ -2,8 +2,14 @@ package c12
 
 import (
 	"fmt"
+	"math"
 	"sync/atomic"
 )
+
+func nonFiniteValue(v float64) bool { return math.IsNaN(v) || math.IsInf(v, 0) }
+
+// feq is equality with IEEE semantics for results: NaN equals NaN.
+func feq(a, b float64) bool { return a == b || (math.IsNaN(a) && math.IsNaN(b)) }
 
 // fold is everything the harness knows about the measurements aggregated
 // into one data point: enough to predict every field of a sum, gauge,
@@ -13,24 +19,42 @@ type fold struct {
 	sum      float64
 	count    uint64
 	last     float64
+	lastOrd  float64 // last value that is not NaN
 	min, max float64
 	zero     uint64
-	vals     map[float64]uint64 // value -> how often
+	nan      uint64             // NaN measurements (counted, not in vals / min / max)
+	nonfin   uint64             // NaN and +-Inf measurements
+	vals     map[float64]uint64 // value -> how often (NaN excluded)
 	up, down bool               // the sequence went up / down at least once
 }
 
 func (f *fold) add(v float64) {
-	if f.count == 0 {
-		f.min, f.max = v, v
+	if f.vals == nil {
 		f.vals = map[float64]uint64{}
+	}
+	if nonFiniteValue(v) {
+		f.nonfin++
+	}
+	if math.IsNaN(v) {
+		// sums follow IEEE (NaN from here on); min / max / buckets of a point
+		// that folded a NaN are not predicted
+		f.nan++
+		f.sum += v
+		f.count++
+		f.last = v
+		return
+	}
+	if len(f.vals) == 0 {
+		f.min, f.max = v, v
 	} else {
-		if v > f.last {
+		if v > f.lastOrd {
 			f.up = true
 		}
-		if v < f.last {
+		if v < f.lastOrd {
 			f.down = true
 		}
 	}
+	f.lastOrd = v
 	if v < f.min {
 		f.min = v
 	}
@@ -51,20 +75,26 @@ func (f *fold) merge(o *fold) {
 	if o.count == 0 {
 		return
 	}
-	if f.count == 0 {
-		f.min, f.max = o.min, o.max
+	if f.vals == nil {
 		f.vals = map[float64]uint64{}
 	}
-	if o.min < f.min {
-		f.min = o.min
-	}
-	if o.max > f.max {
-		f.max = o.max
+	if len(o.vals) > 0 {
+		if len(f.vals) == 0 {
+			f.min, f.max = o.min, o.max
+		}
+		if o.min < f.min {
+			f.min = o.min
+		}
+		if o.max > f.max {
+			f.max = o.max
+		}
 	}
 	for v, n := range o.vals {
 		f.vals[v] += n
 	}
 	f.zero += o.zero
+	f.nan += o.nan
+	f.nonfin += o.nonfin
 	f.sum += o.sum
 	f.count += o.count
 	f.up, f.down = true, true // interleaving unknown
@@ -125,13 +155,13 @@ func checkHistPoint(agg effAgg, noSum bool, g gotPoint, f *fold, overflow bool) 
 	if g.count != f.count {
 		diffs = append(diffs, fmt.Sprintf("Count %d, folded %d", g.count, f.count))
 	}
-	if !noSum && g.sum != f.sum {
+	if !noSum && !feq(g.sum, f.sum) {
 		diffs = append(diffs, fmt.Sprintf("Sum %v, folded %v", g.sum, f.sum))
 	}
 	// NoMinMax is never configured by this harness: min and max are recorded
 	if !g.hasMin || !g.hasMax {
 		diffs = append(diffs, fmt.Sprintf("Min defined=%v Max defined=%v, both are recorded by default", g.hasMin, g.hasMax))
-	} else {
+	} else if f.nan == 0 {
 		statMinMaxCompared.Add(1)
 		classes = append(classes, "histogram_point_min_max_compared")
 		if g.min != f.min {
@@ -162,11 +192,21 @@ func checkHistPoint(agg effAgg, noSum bool, g gotPoint, f *fold, overflow bool) 
 			for v, n := range f.vals {
 				exp[bucketOf(want, v)] += n
 			}
+			var total uint64
 			for i := range exp {
-				if exp[i] != g.buckets[i] {
-					diffs = append(diffs, fmt.Sprintf("BucketCounts %v, folded values give %v (bounds %v)", g.buckets, exp, want))
+				total += g.buckets[i]
+				// a NaN has no place among the boundaries: where it is counted
+				// is not predicted, that it is counted in exactly one bucket is
+				if exp[i] != g.buckets[i] && (f.nan == 0 || g.buckets[i] < exp[i]) {
+					diffs = append(diffs, fmt.Sprintf("BucketCounts %v, folded values give %v plus %d NaN (bounds %v)", g.buckets, exp, f.nan, want))
 					break
 				}
+			}
+			if total != f.count {
+				diffs = append(diffs, fmt.Sprintf("BucketCounts %v add up to %d, %d measurements were folded", g.buckets, total, f.count))
+			}
+			if f.nonfin > 0 {
+				classes = append(classes, "explicit_histogram_point_counts_non_finite_values")
 			}
 		}
 	}
